@@ -44,6 +44,10 @@ pub struct RingCfg {
     pub sqpoll: bool,
     pub direct_slots: u16,
     pub alt_layout: bool,
+    /// single_issuer + defer_task_run (completions produced by task work are
+    /// only posted when the Ring's thread enters the kernel for events).
+    #[serde(default)]
+    pub defer_taskrun: bool,
 }
 
 impl RingCfg {
@@ -58,7 +62,7 @@ impl RingCfg {
         }
     }
     pub fn simple(sq_log2: u8) -> RingCfg {
-        RingCfg { sq_log2, cq_log2: None, sq_start: Start::Zero, cq_start: Start::Zero, sqpoll: false, direct_slots: 0, alt_layout: false }
+        RingCfg { sq_log2, cq_log2: None, sq_start: Start::Zero, cq_start: Start::Zero, sqpoll: false, direct_slots: 0, alt_layout: false, defer_taskrun: false }
     }
 }
 
@@ -96,6 +100,9 @@ impl World {
             }
             if cfg.sqpoll {
                 config = config.with_kernel_thread().with_idle_timeout(Duration::from_millis(10));
+            }
+            if cfg.defer_taskrun && !cfg.sqpoll {
+                config = config.single_issuer().defer_task_run();
             }
             if cfg.direct_slots > 0 {
                 config = config.with_direct_descriptors(cfg.direct_slots as u32);
